@@ -748,7 +748,7 @@ class FuncBitAnd(ValueFunc):
     def execute(self, args, environment, pos):
         a = args.getInt("a").value
         b = args.getInt("b").value
-        return ValueInt(a & b)
+        return ValueInt((a & b) & 0xFFFFFFFF)
 
 
 class FuncBitOr(ValueFunc):
@@ -771,7 +771,7 @@ class FuncBitOr(ValueFunc):
     def execute(self, args, environment, pos):
         a = args.getInt("a").value
         b = args.getInt("b").value
-        return ValueInt(a | b)
+        return ValueInt((a | b) & 0xFFFFFFFF)
 
 
 class FuncBitNot(ValueFunc):
@@ -792,10 +792,7 @@ class FuncBitNot(ValueFunc):
 
     def execute(self, args, environment, pos):
         a = args.getInt("a").value
-        a = ~a
-        if a < 0:
-            a += 2 ** 32
-        return ValueInt(a)
+        return ValueInt(~a & 0xFFFFFFFF)
 
 
 class FuncBitXor(ValueFunc):
@@ -818,7 +815,7 @@ class FuncBitXor(ValueFunc):
     def execute(self, args, environment, pos):
         a = args.getInt("a").value
         b = args.getInt("b").value
-        return ValueInt(a ^ b)
+        return ValueInt((a ^ b) & 0xFFFFFFFF)
 
 
 class FuncBitRotateLeft(ValueFunc):
@@ -841,8 +838,9 @@ class FuncBitRotateLeft(ValueFunc):
 
     def execute(self, args, environment, pos):
         a = args.getInt("a").value
-        n = args.getInt("n").value
-        return ValueInt((a << n) | (a >> (32 - n)))
+        n = args.getInt("n").value % 32
+        a &= 0xFFFFFFFF
+        return ValueInt(((a << n) | (a >> (32 - n))) & 0xFFFFFFFF)
 
 
 class FuncBitRotateRight(ValueFunc):
@@ -865,8 +863,9 @@ class FuncBitRotateRight(ValueFunc):
 
     def execute(self, args, environment, pos):
         a = args.getInt("a").value
-        n = args.getInt("n").value
-        return ValueInt((a >> n) | (a << (32 - n)))
+        n = args.getInt("n").value % 32
+        a &= 0xFFFFFFFF
+        return ValueInt(((a >> n) | (a << (32 - n))) & 0xFFFFFFFF)
 
 
 class FuncBitShiftLeft(ValueFunc):
@@ -890,7 +889,9 @@ class FuncBitShiftLeft(ValueFunc):
     def execute(self, args, environment, pos):
         a = args.getInt("a").value
         n = args.getInt("n").value
-        return ValueInt(a << n)
+        if n >= 32:
+            return ValueInt(0)
+        return ValueInt(((a & 0xFFFFFFFF) << n) & 0xFFFFFFFF)
 
 
 class FuncBitShiftRight(ValueFunc):
@@ -914,7 +915,7 @@ class FuncBitShiftRight(ValueFunc):
     def execute(self, args, environment, pos):
         a = args.getInt("a").value
         n = args.getInt("n").value
-        return ValueInt(a >> n)
+        return ValueInt((a & 0xFFFFFFFF) >> n)
 
 
 class FuncBody(ValueFunc):
